@@ -1,4 +1,5 @@
 //! eggmon: language-level runtime monitors for egglog (one sub-command per property).
+mod battery;
 mod c03;
 mod c04;
 mod c08;
@@ -68,6 +69,7 @@ fn main() {
         "c10" => c10::run(&a),
         "c11" => c11::run(&a),
         "exec" => exec::run(&a),
+        "battery" => battery::run(&a),
         other => {
             eprintln!("unknown monitor {other}");
             std::process::exit(2);
